@@ -16,7 +16,7 @@ PROPERTY = {
     'bounds': {'shapes': 'all mapping documents with <=4 nodes (quick) / <=6 (thorough), depth <=3, lists <=2, mappings <=2 keys',
                'sites': '1 site at any node (quick) / 2 sites (thorough)',
                'flags per site': 'none | priority in {-1,0,1} | delete in {T,F} | allow_new=True | safe in {T,F}; literal tags !force !weak !del !merge !new !unsafe !metadata{{..}}'},
-    'outside': ['arbitrary unicode scalars, anchors/aliases, block style, multi-line scalars', 'value-less !del (removes the key by design)',
+    'outside': ['arbitrary unicode scalars, anchors/aliases, block-style collections, multi-line block scalars', 'value-less !del (removes the key by design)',
                 'keys equal to attribute names of the node classes', 'allow_new=False in a first document (error by design)'],
     'per_split_timeout': {'quick': 600, 'thorough': 1800},
     'wall_budget': {'quick': 900, 'thorough': 3400},
@@ -117,13 +117,60 @@ def c01_two_sites(split, si, pos, pos2, t, pp, p, dp, d, np_, sp, s, t2, dp2, d2
     return ok
 
 
+TEXTS = ['0123', '1.10', 'yes', '~', '1:30', 'txt', '2001-01-01', '0x1F', '', 'null', '-7', ' 5']
+STYLES = ['plain', 'single', 'double', 'literal', 'folded', 'literal_keep']
+
+
+def _styled(text, style, tag):
+    pre = (tag + ' ') if tag else ''
+    if style == 'plain':
+        return 'k: ' + pre + text.strip() + '\n'
+    if style == 'single':
+        return 'k: ' + pre + "'" + text + "'\n"
+    if style == 'double':
+        return 'k: ' + pre + '"' + text + '"\n'
+    ind = {'literal': '|-', 'folded': '>-', 'literal_keep': '|'}[style]
+    return 'k: ' + pre + ind + '\n  ' + (text.strip() or 'x') + '\n'
+
+
+def c01_scalars(split, ti, t, pp, p, dp, d, np_, sp, s):
+    """a tagged scalar in every YAML scalar style has the value and type PyYAML gives the untagged scalar"""
+    reset()
+    ti = pick(ti, len(TEXTS))
+    style = split['style']
+    tag = _tag('s0', t, pp, p, dp, d, np_, sp, s)
+    if tag == '!del' and style == 'plain' and TEXTS[ti].strip() == '':
+        return True          # value-less !del removes the key by design
+    text = _styled(TEXTS[ti], style, tag)
+    plain = _styled(TEXTS[ti], style, '')
+    with untraced():
+        expected = pyyaml.load(plain, Loader=pyyaml.Loader)
+    note(text=text, plain=plain, expected=repr(expected))
+    try:
+        cfg = Config.build(text + 'z: 1\n', raw_yaml=True)
+    except Exception as e:
+        reraise_internal(e)
+        note(error=repr(e))
+        # known finding (specific signature): a plain scalar that YAML resolves to a timestamp cannot be wrapped at all
+        if style == 'plain' and TEXTS[ti] == '2001-01-01' and type(e).__name__ == 'ParsingError' and known('C01-timestamp-scalar'):
+            return True
+        return False
+    wit('built')
+    note(got=repr(cfg))
+    expected['z'] = 1
+    return same(cfg, expected)
+
+
 ONE_FLAG = '(pp + dp + np_ + sp) <= 1'
 
 
 def _splits_one(tier):
     fam = _family(tier)
     step = 2 if tier == 'quick' else 4
-    return [{'tier': tier, 'lo': lo, 'hi': min(lo + step, len(fam))} for lo in range(0, len(fam), step)]
+    # quick: symbolic flag kinds alternate between (priority, delete) and (allow_new, safe) from split to split
+    return [{'tier': tier, 'lo': lo, 'hi': min(lo + step, len(fam)),
+             '_pre': ('True' if tier != 'quick' else ('not np_ and not sp' if (lo // step) % 2 == 0 else 'not pp and not dp'))}
+            for lo in range(0, len(fam), step)]
 
 
 def _splits_two(tier):
@@ -131,7 +178,7 @@ def _splits_two(tier):
     step = 1 if tier == 'quick' else 2
     out = [{'tier': tier, 'lo': lo, 'hi': min(lo + step, len(fam))} for lo in range(0, len(fam), step)]
     if tier == 'quick':
-        out = out[3::9]
+        out = out[3::14]
     else:
         out = out[::2]
     return out
@@ -145,6 +192,12 @@ HARNESSES = {
                             pre=f'{ONE_FLAG} and (t == 0 or not (pp or dp or np_ or sp))',
                             doc='every shape x every node position x (symbolic flag site | literal tag) vs yaml.load of the erased text',
                             witnesses=('built',)),
+    'c01_scalars': Harness('c01_scalars', c01_scalars,
+                           [('ti', 'int', 0, len(TEXTS) - 1), ('t', 'int', 0, len(LITERAL) - 1),
+                            ('pp', 'bool'), ('p', 'int', -1, 1), ('dp', 'bool'), ('d', 'bool'), ('np_', 'bool'), ('sp', 'bool'), ('s', 'bool')],
+                           lambda tier: [{'style': st, '_pre': ('t != 0 or not (pp or np_)') if tier == 'quick' else 'True'} for st in STYLES],
+                           pre=f'{ONE_FLAG} and (t == 0 or not (pp or dp or np_ or sp))',
+                           doc='12 scalar texts x 6 YAML scalar styles (plain, quoted, block literal/folded) x symbolic flag site or literal tag', witnesses=('built',)),
     'c01_two_sites': Harness('c01_two_sites', c01_two_sites,
                              [('si', 'int', 0, 3), ('pos', 'int', 0, 5), ('pos2', 'int', 0, 5), ('t', 'int', 0, len(LITERAL) - 1),
                               ('pp', 'bool'), ('p', 'int', -1, 1), ('dp', 'bool'), ('d', 'bool'), ('np_', 'bool'), ('sp', 'bool'), ('s', 'bool'),
